@@ -187,6 +187,44 @@ fn cmd_eval(line: &str) -> String {
     s
 }
 
+/// What a user of the command-line program sees: the printed output, then the value as `{}` displays it, or the
+/// error kind.  Line: `<budget> <hex source>`
+fn cmd_show(line: &str) -> String {
+    let (budget, hex) = line.split_once(' ').unwrap_or((line, ""));
+    let budget: u64 = budget.parse().unwrap();
+    let src = unhex(hex.trim());
+    verif::heap_reset();
+    verif::take_output();
+    verif::take_gc_log();
+    verif::take_float_log();
+    verif::set_budget(Some(budget));
+    let result = catch_unwind(AssertUnwindSafe(|| nederlang::eval(&src)));
+    verif::set_budget(None);
+    let output = verif::take_output();
+    let mut s = String::new();
+    match result {
+        Ok(Ok(obj)) => {
+            match catch_unwind(AssertUnwindSafe(|| format!("{obj}"))) {
+                Ok(r) => write!(s, "OK {}", cps(&r)).unwrap(),
+                Err(e) => write!(s, "PANIC-IN-RESULT {}", panic_text(e)).unwrap(),
+            }
+            let _ = catch_unwind(AssertUnwindSafe(|| release_graph(obj)));
+        }
+        Ok(Err(e)) => {
+            if matches!(&e, Error::TypeError(m) if m == "verif: budget") {
+                s.push_str("BUDGET");
+            } else {
+                write!(s, "ERR {}", error_kind(&e)).unwrap();
+            }
+        }
+        Err(e) => write!(s, "PANIC {}", panic_text(e)).unwrap(),
+    }
+    verif::take_gc_log();
+    verif::take_float_log();
+    write!(s, " | OUT {}", cps(&output)).unwrap();
+    s
+}
+
 fn cmd_tokens(line: &str) -> String {
     let src = unhex(line.trim());
     match catch_unwind(AssertUnwindSafe(|| verif::tokens(&src))) {
@@ -373,6 +411,7 @@ fn main() {
             "word" => catch_unwind(AssertUnwindSafe(|| cmd_word(line)))
                 .unwrap_or_else(|e| format!("PANIC {}", panic_text(e))),
             "eval" => cmd_eval(line),
+            "show" => cmd_show(line),
             "tokens" => cmd_tokens(line),
             "parse" => cmd_parse(line),
             "floatlits" => cmd_floatlits(line),
